@@ -549,7 +549,20 @@ impl<'a> Gen<'a> {
         let id = match self.r.below(30) { 0..=6 => "-".to_string(), 7 => "bad$id".to_string(), 8 => "a/b".to_string(), 9 => "x".repeat(64), 10 => "x".repeat(65), 11 => "x".repeat(70),
             _ => format!("{}{}", sender, self.r.below(4)) };
         let recv = match self.r.below(10) { 0 => SENDERS[self.r.below(4) as usize].to_string(), 1 => sender.to_string(), _ => "-".into() };
-        let funds = if amt == 0 { vec![] } else { vec![coin(amt, lp)] };
+        let funds = if amt == 0 { vec![] } else { vec![coin(amt, lp.clone())] };
+        // now and then: the explicit identifier of an EXISTING open position (its raw form, as its owner typed it), the same LP
+        // token and the same unlocking duration, sent by somebody else — the identifier is taken: refused, nothing changes
+        if self.r.chance(1, 9) {
+            let real = self.run.h.w.rd(&lp);
+            let cands: Vec<_> = self.positions().into_iter().filter(|q| q.open && q.identifier.starts_with("u-") && q.lp_asset.denom == real).collect();
+            if let Some(q) = cands.first() {
+                let owner = self.run.h.w.n(q.receiver.as_str());
+                let other = SENDERS.iter().copied().find(|u| *u != owner && self.run.h.w.balance(u, &lp) > 0).unwrap_or(sender);
+                let a2 = (self.run.h.w.balance(other, &lp) / 10).max(1);
+                self.emit(format!("tx {} {} fm createpos {} {} -", other, funds_str(&[coin(a2, lp.clone())]), &q.identifier[2..], q.unlocking_duration));
+                return;
+            }
+        }
         self.emit(format!("tx {} {} fm createpos {} {} {}", sender, funds_str(&funds), id, dur, recv));
     }
 
@@ -1056,6 +1069,114 @@ impl<'a> Gen<'a> {
         if self.r.chance(1, 2) { self.emit(format!("tx {} 0 fm withdrawpos u-xha{} true", ua, tag)); }
     }
 
+    /// directed scenario for C06 / C07: a LONG farm with a SMALL budget (amount = rate·n + r with r ≥ rate): the emission stops at the
+    /// end epoch although budget is left; a staker claims in the last epoch, after the end, and again later (nothing accrues)
+    pub fn op_scenario_long_thin_farm(&mut self) {
+        let Some(lp) = self.some_lp() else { return self.op_provide() };
+        let real = self.run.h.w.rd(&lp);
+        let cfg: mantra_dex_std::farm_manager::Config = self.run.h.w.app.wrap()
+            .query_wasm_smart(self.run.h.w.a("fm"), &mantra_dex_std::farm_manager::QueryMsg::Config {}).unwrap();
+        if self.farms().iter().filter(|f| f.lp_denom == real).count() as u32 >= cfg.max_concurrent_farms { return self.op_advance(); }
+        let holders = self.lp_holders(&lp);
+        let Some(u) = holders.first().copied() else { return self.op_provide() };
+        let tag = self.r.below(10_000);
+        let cur = self.cur_epoch();
+        let n = 33 + self.r.below(30);                         // epochs
+        let rate = 1000 / n as u128 + 1 + self.r.below(8) as u128;      // < n, and rate·n ≥ 1000
+        let extra = rate * (1 + self.r.below(3) as u128) + self.r.below(rate as u64) as u128;   // r ≥ rate
+        let aa = rate * n as u128 + extra;
+        let funds = self.farm_fee_funds(&coin(aa, "uusdc"));
+        self.emit(format!("tx u2 {} fm createfarm {} {} {} uusdc {} lt{}", funds_str(&funds), lp, cur + 1, cur + 1 + n, aa, tag));
+        let bal = self.run.h.w.balance(u, &lp);
+        self.emit(format!("tx {} 1 {} {} fm createpos lts{} {} -", u, lp, (bal / 5).max(1), tag, DAY * 2));
+        self.emit(format!("advance {}", (n as u64) * DAY * 1_000_000_000));          // last emitting epoch
+        self.emit(format!("tx {} 0 fm claim -", u));
+        self.emit(format!("advance {}", 3 * DAY * 1_000_000_000));                   // past the end
+        self.q(format!("q rewards {} -", u));
+        self.emit(format!("tx {} 0 fm claim -", u));
+        self.emit(format!("advance {}", 4 * DAY * 1_000_000_000));
+        self.emit(format!("tx {} 0 fm claim -", u));
+    }
+
+    /// directed scenario for C09: a position is closed and emergency-withdrawn at block times WITH a sub-second part, at several
+    /// distances from the unlock instant (the penalty is a function of whole seconds remaining and never grows with time)
+    pub fn op_scenario_emergency_fractional_time(&mut self) {
+        let Some(lp) = self.some_lp() else { return self.op_provide() };
+        let holders = self.lp_holders(&lp);
+        let Some(u) = holders.first().copied() else { return self.op_provide() };
+        let tag = self.r.below(10_000);
+        let bal = self.run.h.w.balance(u, &lp);
+        if bal < 10 { return self.op_provide(); }
+        let dur = DAY * (1 + self.r.below(20));
+        for k in 0..2u64 {
+            self.emit(format!("tx {} 1 {} {} fm createpos ef{}x{} {} -", u, lp, (bal / 10).max(1000.min(bal / 3)), tag, k, dur));
+        }
+        self.emit(format!("tx {} 0 fm claim -", u));
+        let frac = 1 + self.r.below(999_999_998);
+        self.emit(format!("advance {}", 3600 * 1_000_000_000 + frac));
+        for k in 0..2u64 { self.emit(format!("tx {} 0 fm closepos u-ef{}x{} - -", u, tag, k)); }
+        // first exit with a large sub-second part, second exit a little later at (almost) the next whole second
+        let part = dur / 2 + self.r.below(dur / 3);
+        let now = self.run.h.w.now_ns();
+        let t1 = (now / 1_000_000_000 + part) * 1_000_000_000 + 900_000_000 + self.r.below(99_999_999);
+        self.emit(format!("advance {}", t1 - now));
+        self.emit(format!("tx {} 0 fm withdrawpos u-ef{}x0 true", u, tag));
+        let now2 = self.run.h.w.now_ns();
+        let t2 = (now2 / 1_000_000_000 + 1) * 1_000_000_000 + self.r.below(3);
+        self.emit(format!("advance {}", t2 - now2));
+        self.emit(format!("tx {} 0 fm withdrawpos u-ef{}x1 true", u, tag));
+    }
+
+    /// directed scenario for C10 / C08: one user is given MORE than ten open positions through locked deposits of the pool
+    /// manager, across two LP tokens (the limit of open positions per receiver must hold on that path too); then positions are
+    /// closed — a user with an open position in an LP token keeps a weight history for it
+    pub fn op_scenario_many_positions_on_behalf(&mut self) {
+        let tag = self.r.below(1000);
+        // two funded constant-product pools of its own (self-sufficient)
+        let cf = self.creation_funds();
+        self.emit(format!("tx u1 {} pm create cp 0 2 uom 6 uusdc 6 0 0 0 - mp{}a", funds_str(&cf), tag));
+        self.emit(format!("tx u1 {} pm create cp 0 2 uluna 6 uusdt 6 0 0 0 - mp{}b", funds_str(&cf), tag));
+        let mut d1 = vec![coin(50_000_000, "uom"), coin(50_000_000, "uusdc")]; d1.sort_by(|x, y| x.denom.cmp(&y.denom));
+        let mut d2 = vec![coin(50_000_000, "uluna"), coin(50_000_000, "uusdt")]; d2.sort_by(|x, y| x.denom.cmp(&y.denom));
+        self.emit(format!("tx u2 {} pm provide o.mp{}a - - - - -", funds_str(&d1), tag));
+        self.emit(format!("tx u2 {} pm provide o.mp{}b - - - - -", funds_str(&d2), tag));
+        let pools = self.pools();
+        let (Some(pa), Some(pb)) = (pools.iter().find(|p| p.pool_info.pool_identifier == format!("o.mp{}a", tag)).map(|p| p.pool_info.clone()),
+            pools.iter().find(|p| p.pool_info.pool_identifier == format!("o.mp{}b", tag)).map(|p| p.pool_info.clone())) else { return };
+        if pa.assets.iter().any(|a| a.amount.is_zero()) || pb.assets.iter().any(|a| a.amount.is_zero()) { return; }
+        let user = ["u3", "u4", "u1"][self.r.below(3) as usize];
+        let dep = |pi: &mantra_dex_std::pool_manager::PoolInfo| -> Vec<Coin> {
+            let mut f: Vec<Coin> = pi.assets.iter().map(|a| coin(a.amount.u128() / 2000 + 1, a.denom.clone())).collect();
+            f.sort_by(|x, y| x.denom.cmp(&y.denom)); f
+        };
+        for i in 0..10u64 {
+            self.emit(format!("tx {} {} pm provide {} - - - {} a{}x{}", user, funds_str(&dep(&pa)), pa.pool_identifier, DAY * 2, tag, i));
+        }
+        for i in 0..2u64 {
+            self.emit(format!("tx {} {} pm provide {} - - - {} b{}x{}", user, funds_str(&dep(&pb)), pb.pool_identifier, DAY * 2, tag, i));
+        }
+        self.emit(format!("tx {} 0 fm claim -", user));
+        self.emit(format!("tx {} 0 fm closepos u-b{}x0 - -", user, tag));
+        self.emit(format!("tx {} 0 fm closepos u-a{}x0 - -", user, tag));
+        self.emit(format!("advance {}", DAY * 1_000_000_000));
+        self.emit(format!("tx {} 0 fm closepos u-b{}x1 - -", user, tag));
+    }
+
+    /// directed scenario for C20: the epoch manager stops answering (its owner moves the genesis into the future); an expired or
+    /// live farm is then closed by hand — under fault enumeration also with the refund transfer failing: the tolerated failure must
+    /// still neither block the close nor touch anything else.  LAST scenario of a history (no epoch exists afterwards)
+    pub fn op_scenario_close_farm_without_epochs(&mut self) {
+        if self.farms().is_empty() { self.op_create_farm(); }
+        let fs = self.farms();
+        let Some(f) = fs.first().cloned() else { return };
+        let own = self.run.h.ownership("em");
+        let owner = own.split('/').next().unwrap_or("owner").to_string();
+        let now_s = self.run.h.w.now_ns() / 1_000_000_000;
+        self.emit(format!("tx {} 0 em config 86400 {}", owner, now_s + 40 * DAY));
+        let fowner = self.run.h.w.n(f.owner.as_str());
+        self.emit(format!("tx {} 0 fm closefarm {}", fowner, f.identifier));
+    }
+
     /// directed scenario for C06 / C07: a user who already has a claim cursor (from another LP token) enters a SECOND LP
     /// token late — epochs after a farm on it started paying other stakers — and claims only a few epochs later: the
     /// epochs between the cursor and the entry must not be paid (the weight took effect the epoch after the entry)
@@ -1158,15 +1279,21 @@ impl<'a> Gen<'a> {
         self.emit(format!("tx u1 {} pm create cp 0 2 {} 6 {} 6 0 0 0 - wf{}", funds_str(&funds0), d, other, tag));
         let mut dep = vec![coin(5_000_000, d.clone()), coin(5_000_000, other)]; dep.sort_by(|a, b| a.denom.cmp(&b.denom));
         self.emit(format!("tx u2 {} pm provide o.wf{} - - - - -", funds_str(&dep), tag));
-        // the current owner waives the fee
+        // the current owner waives the fee — or sets a small one — in the factory's first fee denom
         let own = self.run.h.ownership("pm");
         let owner = own.split('/').next().unwrap_or("owner").to_string();
-        self.emit(format!("tx {} 0 pm config - - {} 0 - - - -", owner, d));
+        let fee_amt = if self.r.chance(1, 2) { 0 } else { 250 };
+        self.emit(format!("tx {} 0 pm config - - {} {} - - - -", owner, d, fee_amt));
+        // the pool manager should also hold the factory's OTHER fee denoms (so that a fee taken from its balance would succeed)
+        for c in self.run.h.w.cfg.tf_fees.clone().iter().skip(1) {
+            self.emit(format!("send u3 pm 1 {} {}", c.denom, c.amount.u128() * 5));
+        }
         let exact = self.creation_funds();
         let mut k = 0;
-        for variant in 0..4u64 {
+        for variant in 0..5u64 {
             let mut f = exact.clone();
             match variant {
+                4 => f.retain(|c| c.denom == d),          // only the coins of the first fee denom: the later factory fees are missing
                 0 => f.clear(),
                 1 => { if let Some(c) = f.iter_mut().find(|c| c.denom == d) { c.amount = c.amount.saturating_sub(cosmwasm_std::Uint128::one()); } }
                 2 => { if let Some(c) = f.iter_mut().find(|c| c.denom == d) { c.amount += cosmwasm_std::Uint128::one(); } }
@@ -1404,7 +1531,10 @@ pub fn gen_fm_case(r: &mut Rng, id: u64, len: u64, faults: bool, o: &mut Out) {
     for _ in 0..6 { g.op_provide(); }
     // every second case starts with one directed scenario, in rotation, whatever the seed
     if let Some(k) = scen {
-        match k % 13 {
+        match k % 16 {
+            15 => g.op_scenario_many_positions_on_behalf(),
+            14 => g.op_scenario_emergency_fractional_time(),
+            13 => g.op_scenario_long_thin_farm(),
             12 => g.op_scenario_farm_end_and_recreate(),
             11 => g.op_scenario_late_entry_second_lp(),
             10 => g.op_scenario_exhausted_farm_emergency(),
@@ -1447,6 +1577,8 @@ pub fn gen_fm_case(r: &mut Rng, id: u64, len: u64, faults: bool, o: &mut Out) {
             _ => g.op_advance(),
         }
     }
+    // the very last thing in some histories: the epoch manager stops answering and a farm is closed by hand (C20)
+    if (faults && (id / 2) % 3 == 0) || (!faults && id % 8 == 5) { g.op_scenario_close_farm_without_epochs(); }
     g.o.raw("end");
 }
 
@@ -1656,6 +1788,13 @@ pub fn run_twin(seed: u64, cases: u64, o: &mut Out) {
             let ls = ["-", "-", "10000000000000000", "50000000000000000", "300000000000000000", "0", "2000000000000000", "500000000000000000", "300000000000000000"][r.below(9) as usize];
             let (unlock, lockid) = match r.below(3) { 0 => ((DAY * (1 + r.below(100))).to_string(), "-".to_string()), 1 => ((DAY * (1 + r.below(100))).to_string(), "tw".to_string()), _ => ("-".into(), "-".into()) };
             let lp = run_a.h.w.cd(&p.lp_denom);
+            // now and then swaps are paused on the pool in BOTH deployments: the depositor's own swap is refused, so must the
+            // single-asset deposit be
+            if r.chance(1, 7) {
+                let line = format!("tx owner 0 pm config - - - - {} false - -", pid);
+                run_a.step(&line, o);
+                run_b.step(&line, &mut ob);
+            }
             // A: single-asset deposit
             let res_a = run_a.step(&format!("tx {} 1 {} {} pm provide {} {} {} - {} {}", user, od, a, pid, ls, ss, unlock, lockid), o);
             o.raw("end");
@@ -1697,7 +1836,10 @@ pub fn run_twin(seed: u64, cases: u64, o: &mut Out) {
                 (0, 0) | (2, 0) => { // deposit into pid (needs deposits only)
                     let mut f = vec![coin(p.assets[0].amount.u128() / 50 + 1, p.assets[0].denom.clone()), coin(p.assets[1].amount.u128() / 50 + 1, p.assets[1].denom.clone())];
                     f.sort_by(|x, y| x.denom.cmp(&y.denom));
-                    format!("tx {} {} pm provide {} - - - - -", user, coins_str(&f), pid)
+                    // (every optional field of the message may be present: none of them makes a two-sided deposit need another switch)
+                    let ls = ["-", "-", "500000000000000000"][r.below(3) as usize];
+                    let ss = ["-", "500000000000000000", "10000000000000000"][r.below(3) as usize];
+                    format!("tx {} {} pm provide {} {} {} - - -", user, coins_str(&f), pid, ls, ss)
                 }
                 (1, 0) | (2, 1) => { // swap on pid (needs swaps only)
                     format!("tx {} 1 {} {} pm swap {} {} - 500000000000000000 -", user, p.assets[0].denom, p.assets[0].amount.u128() / 1000 + 1, pid, p.assets[1].denom)
